@@ -8,6 +8,8 @@ import (
 
 	"github.com/verily-src/fhirpath-go/fhirpath"
 	"github.com/verily-src/fhirpath-go/fhirpath/evalopts"
+	"github.com/verily-src/fhirpath-go/fhirpath/system"
+	dtpb "github.com/google/fhir/go/proto/google/fhir/proto/r4/core/datatypes_go_proto"
 	"github.com/verily-src/fhirpath-go/fhirpath/verifharness/core"
 	"github.com/verily-src/fhirpath-go/fhirpath/verifharness/fx"
 	"github.com/verily-src/fhirpath-go/fhirpath/verifharness/gen"
@@ -26,7 +28,7 @@ func init() {
 		Assumptions: []string{"R4 hierarchy: primitives specialise per the statement; a datatype or nested component carrying modifierExtension is a BackboneElement; Bundle, Binary, Parameters derive directly from Resource; Age/Count/Distance/Duration/MoneyQuantity/SimpleQuantity derive from Quantity",
 			"xhtml elements are only placed below Element (no specifier names the type itself); ReferenceId nodes are not typed by the model and are skipped"},
 		Run:    runC12,
-		Checks: map[string]func(*core.Env, []json.RawMessage){"resource": replayC12, "sys": replayC12Sys},
+		Checks: map[string]func(*core.Env, []json.RawMessage){"resource": replayC12, "sys": replayC12Sys, "computed": func(env *core.Env, a []json.RawMessage) { c12Computed(env) }},
 		Threshold: func(m *core.Merged) []string {
 			var r []string
 			for _, k := range []string{"is-true", "is-false", "as-identity", "as-empty", "kind:resource", "kind:datatype", "kind:primitive", "kind:code", "kind:backbone", "via-path", "via-choice-wrapper", "system-value", "invalid-specifier"} {
@@ -370,10 +372,100 @@ func c12Sys(env *core.Env) {
 
 func replayC12Sys(env *core.Env, a []json.RawMessage) { c12Sys(env) }
 
+// c12Computed: a value computed from an element (by a function or an operator) is a System value: every
+// `f(x) is T` / `f(x) as T` has the outcome it has when x is replaced by the System value it denotes.
+func c12Computed(env *core.Env) {
+	defer env.In("computed")()
+	env.Case()
+	type pair struct {
+		name string
+		elem proto.Message
+		sys  system.Any // (the System value it denotes; documentation of the case list only)
+	}
+	var pairs []pair
+	q := func(v, u string) *dtpb.Quantity {
+		return &dtpb.Quantity{Value: &dtpb.Decimal{Value: v}, Unit: &dtpb.String{Value: u}, Code: &dtpb.Code{Value: u}, System: &dtpb.Uri{Value: "http://unitsofmeasure.org"}}
+	}
+	for _, v := range []int32{0, 5, -5, 1} {
+		pairs = append(pairs, pair{fmt.Sprintf("integer(%d)", v), &dtpb.Integer{Value: v}, system.Integer(v)})
+		if v >= 0 {
+			pairs = append(pairs, pair{fmt.Sprintf("unsignedInt(%d)", v), &dtpb.UnsignedInt{Value: uint32(v)}, system.Integer(v)})
+		}
+		if v > 0 {
+			pairs = append(pairs, pair{fmt.Sprintf("positiveInt(%d)", v), &dtpb.PositiveInt{Value: uint32(v)}, system.Integer(v)})
+		}
+	}
+	for _, v := range []string{"0.0", "2.5", "-2.5", "4", "0"} {
+		d, err := system.ParseDecimal(v)
+		if err != nil {
+			continue
+		}
+		pairs = append(pairs, pair{"decimal(" + v + ")", &dtpb.Decimal{Value: v}, d})
+		if sq, err := system.ParseQuantity(v, "mg"); err == nil {
+			pairs = append(pairs, pair{"Quantity(" + v + " mg)", q(v, "mg"), sq})
+		}
+	}
+	for _, v := range []string{"", "abc", "12", "true"} {
+		pairs = append(pairs, pair{"string(" + v + ")", &dtpb.String{Value: v}, system.String(v)}, pair{"code(" + v + ")", &dtpb.Code{Value: v}, system.String(v)})
+	}
+	for _, v := range []bool{true, false} {
+		pairs = append(pairs, pair{fmt.Sprintf("boolean(%v)", v), &dtpb.Boolean{Value: v}, system.Boolean(v)})
+	}
+	forms := []string{"%x.abs()", "%x.ceiling()", "%x.floor()", "%x.round()", "%x.truncate()", "%x.sqrt()", "%x.power(1)", "%x.exp()", "-%x", "-(-%x)", "%x + 0", "%x * 1", "%x - 0", "%x / 1", "%x div 1", "%x mod 7",
+		"%x.toInteger()", "%x.toDecimal()", "%x.toString()", "%x.toQuantity()", "%x.toBoolean()", "%x & ''", "%x + ''", "%x.upper()", "%x.lower()", "%x.substring(0)", "%x.replace('zz', 'y')", "%x.toChars()", "%x.length()", "%x.not()", "%x.not().not()", "%x and true", "%x or false",
+		"%x.convertsToInteger()", "iif(true, %x).abs()", "%x.select($this.abs())", "(%x | %x).abs()", "%x.abs().abs()"}
+	specs := []string{"Integer", "System.Integer", "Decimal", "System.Decimal", "Quantity", "System.Quantity", "FHIR.Quantity", "String", "System.String", "Boolean", "System.Boolean", "integer", "FHIR.integer", "decimal", "string", "code", "boolean", "positiveInt", "unsignedInt", "Element", "FHIR.Element"}
+	for _, pr := range pairs {
+		xe := evalopts.EnvVariable("x", pr.elem)
+		for _, f := range forms {
+			base := c12Eval(env, f, nil, xe)
+			if base.IsPanic() {
+				env.Violatef(fx.PanicSig("C12", base), "`%s` with %%x = FHIR %s => %s", f, pr.name, base.Short())
+				continue
+			}
+			if !base.IsValue() || len(base.Raw) != 1 {
+				continue // the form does not apply to this kind of value (or yields several items)
+			}
+			env.Cover("computed-from-element")
+			fs := strings.ReplaceAll(f, "%x", "x")
+			if _, isElem := base.Raw[0].(proto.Message); isElem {
+				env.Violatef("C12/computed-value/is-an-element/"+fs, "`%s` with %%x = FHIR %s yields the %T itself, not a System value", f, pr.name, base.Raw[0])
+				continue
+			}
+			declared := model.TypeRef{NS: "System", Name: fx.Render(base.Raw[0]).K}
+			for _, sp := range specs {
+				target, ok := model.ResolveSpecifier(sp)
+				if !ok {
+					continue
+				}
+				want := model.IsSubtype(declared, target)
+				ri := c12Eval(env, "("+f+") is "+sp, nil, xe)
+				ra := c12Eval(env, "("+f+") as "+sp, nil, xe)
+				if ri.IsPanic() || ra.IsPanic() {
+					env.Violatef(fx.PanicSig("C12", ri), "`(%s) is/as %s` with %%x = FHIR %s => %s / %s", f, sp, pr.name, ri.Short(), ra.Short())
+					continue
+				}
+				if ri.Bool3() != fmt.Sprint(want) {
+					env.Violatef("C12/computed-value/is/"+fs, "`(%s) is %s` with %%x = FHIR %s (the value is a %s): expected %v, observed %s", f, sp, pr.name, declared, want, trunc(ri.Short(), 80))
+				}
+				if want && !fx.Same(ra, base) {
+					env.Violatef("C12/computed-value/as/"+fs, "`(%s) as %s` with %%x = FHIR %s (the value is a %s): expected the value itself, observed %s", f, sp, pr.name, declared, trunc(ra.Short(), 80))
+				} else if !want && !ra.Empty() {
+					env.Violatef("C12/computed-value/as/"+fs, "`(%s) as %s` with %%x = FHIR %s (the value is a %s): expected empty, observed %s", f, sp, pr.name, declared, trunc(ra.Short(), 80))
+				}
+			}
+		}
+	}
+}
+
 func runC12(env *core.Env) {
 	n := 0
 	if env.Mine(n) {
 		c12Sys(env)
+	}
+	n++
+	if env.Mine(n) {
+		c12Computed(env)
 	}
 	types := gen.ResourceTypes()
 	per := env.Size(1, 8)
